@@ -11,8 +11,12 @@ def plan(tier):
         for op in range(4):
             if op == 3 and ek != 0:
                 continue
-            conds.append(Cond("vf.h.h_idx", "h_idx", case=ek * 4 + op, timeout=300, label=f"H08-ops[{EK[ek]}.{OP[op]}]", weight=30))
+            conds.append(Cond("vf.h.h_idx", "h_idx", case=ek * 4 + op, timeout=600, label=f"H08-ops[{EK[ek]}.{OP[op]}]", weight=30))
             conds.append(Cond("vf.h.h_idx", "h_idx_reach", case=ek * 4 + op, timeout=60, expect="refute", label=f"H08-reach[{EK[ek]}.{OP[op]}]"))
+    for ek in range(4):
+        for op in (0, 1):
+            conds.append(Cond("vf.h.h_idx", "h_idx", case=ek * 4 + op, timeout=600, env={"VF_SHARED_LINK": "1", "VF_GENERIC": "1"},
+                              label=f"H08-ops[{EK[ek]}.{OP[op]} via {'add' if op == 0 else 'modify'}_entities_safe, cells on one link]", weight=30))
     # index agreement is also part of INV for the vehicle transitions (moves, pickups)
     conds += C.t_upd_conds("C08", tier, kinds=(2, 7, 8, 9, 10))
     if tier == "thorough":
@@ -22,8 +26,10 @@ def plan(tier):
         "min_classes": 30,
         "explanation": "C08: the eight index maps are exactly the images of the four entity maps (no stale, duplicated or empty entries) after one real "
                        "add/modify/remove/pop operation from an arbitrary index-consistent pre-state (pre-state indexes computed by the harness's own image "
-                       "function), and after vehicle moves / pickups (T-upd); stations and bases never change location.",
-        "entry_points": ["simulation_state_ops.{add,modify,remove}_{vehicle,request,station,base}_safe", "simulation_state_ops.pop_vehicle_safe",
+                       "function), and after vehicle moves / pickups (T-upd); stations and bases never change location. "
+                       "The lookup API (SimulationState.at_geoid, get_*_ids) returns exactly the entities at each cell. A second set of conditions goes through the generic "
+                       "add_entities_safe / modify_entities_safe (class-name dispatch + fold) with street-graph style positions: all cells on ONE link id.",
+        "entry_points": ["simulation_state_ops.{add,modify,remove}_{vehicle,request,station,base}_safe", "simulation_state_ops.pop_vehicle_safe", "simulation_state_ops.add_entities_safe / modify_entities_safe (add_entity_safe, modify_entity_safe, fp.apply_op_to_accumulator)", "SimulationState.at_geoid / get_*_ids",
                          "DictOps.update_entity_dictionaries / add_to_collection_dict / remove_from_collection_dict", "step_simulation_ops.step_vehicle"],
         "bounds": ["2 entities of the kind at cells {A, E (same search cell as A), B, C}; operation names a present id or an absent one; new cell among the 4; "
                    "with / without a non-positional attribute change", "search resolution 10, location resolution 15"] + C.T_BOUNDS[1:],
